@@ -304,7 +304,7 @@ func (g *FullGen) atom(d int) *Node {
 				return InExpr(g.S(d, true), Call("split", g.S(d, true), Str(g.pick(seps))))
 			}
 			if x := g.refOf(TL); x != nil {
-				if r.Bool() {
+				if x.ET == TS {
 					return InExpr(g.S(d, true), x)
 				}
 				return InExpr(g.N(d, true), x)
